@@ -127,6 +127,22 @@ def payload(o):
     return ('payload', o)
 
 
+def opt_project(t, f):
+    """Option<field f> of an Option<struct> value t (option of struct -> struct of options)."""
+    if t[0] == 'none':
+        return NONE
+    if t[0] == 'some':
+        x = t[1]
+        if isinstance(x, tuple) and x and x[0] == 'struct' and isinstance(x[2], dict) and f in x[2]:
+            return some(x[2][f])
+        if isinstance(x, tuple) and x and x[0] == 'phi':
+            return phi(x[1], opt_project(some(x[2]), f), opt_project(some(x[3]), f))
+        return some(('fieldof', x, f))
+    if t[0] == 'phi':
+        return phi(t[1], opt_project(t[2], f), opt_project(t[3], f))
+    return phi(is_some(t), some(('fieldof', payload(t), f)), NONE)
+
+
 def neg_cond(c):
     if c == TRUE:
         return FALSE
@@ -239,6 +255,10 @@ class VG:
         return unk(what)
 
     def get_field(self, path):
+        if path not in self.fields and self.oos_names(path):
+            names = self.oos_names(path)
+            comps = {n_: self.get_field(path + '.' + n_) for n_ in names}
+            return phi(is_some(comps[names[0]]), some(('struct', 'payload-of:' + path, {n_: payload(comps[n_]) for n_ in names})), NONE)
         if path not in self.fields and self.small_array_len(path) is not None:
             return ('seq_lit', tuple(self.get_field('%s.%d' % (path, i)) for i in range(self.small_array_len(path))))
         if path not in self.fields:
@@ -273,6 +293,11 @@ class VG:
         return [f['name'] for f in self.F.adts[ty['adt']]['variants'][0]['fields']], ty['adt']
 
     def set_field(self, path, t, node=None):
+        if isinstance(t, tuple) and t and t != ('in', path) and self.oos_names(path):
+            for n_ in self.oos_names(path):
+                self.set_field(path + '.' + n_, opt_project(t, n_), node)
+            self.fields.pop(path, None)
+            return
         if '.' not in path[-2:] and self.small_array_len(path) is not None and isinstance(t, tuple) and t:
             k_ = self.small_array_len(path)
             for i in range(k_):
@@ -365,6 +390,10 @@ class VG:
             b = self.place_of(e['base'], fr)
             if b is None:
                 return None
+            if b[0] == 'payload' and isinstance(b[1], tuple) and b[1][0] == 'field' and self.oos_names(b[1][1]) and e['name'] in self.oos_names(b[1][1]):
+                # a field of the struct inside an Option cell (through `as_mut()` / `get_or_insert_with`): the payload of the
+                # component cell `opt.field`
+                return ('payload', ('field', b[1][1] + '.' + e['name']))
             if b[0] == 'self':
                 return ('field', b[1] + e['name'])
             if b[0] == 'field':
@@ -515,6 +544,12 @@ class VG:
             if k == 'bind' and 'sub' in p:
                 return self.pat_cond(p['sub'], v)
             return TRUE
+        multi = self._multi_payload_pats(p)
+        if multi is not None:
+            if isinstance(v, tuple) and v and v[0] in ('ref', 'optref'):
+                v = self.read_place(v[1])
+            pv = payload(v)
+            return conj([is_some(v)] + [self.pat_cond(sp, self._field_of_value(pv, fn_)) for fn_, sp in multi])
         inner = pat_is_some(p)
         if inner is not None or pat_is_none(p):
             if isinstance(v, tuple) and v and v[0] in ('ref', 'optref'):
@@ -569,6 +604,23 @@ class VG:
             return op('eq', v, ('const', name))
         return unk('pattern-cond')
 
+    def _multi_payload_pats(self, p):
+        """[(field name, sub-pattern)] if p matches the several-field payload variant of an option-like enum, else None."""
+        from .places import OPTION_LIKE_SOME_MULTI
+        if p.get('k') in ('pstruct', 'ptuplestruct') and isinstance(p.get('path'), dict) and canon(p['path'].get('def', '')) in OPTION_LIKE_SOME_MULTI:
+            if p['k'] == 'pstruct':
+                return [(f['name'], f['pat']) for f in p['fields']]
+            return [(str(i), sp) for i, sp in enumerate(p['pats'])]
+        return None
+
+    def _field_of_value(self, x, f):
+        if isinstance(x, tuple) and x:
+            if x[0] == 'struct' and isinstance(x[2], dict) and f in x[2]:
+                return x[2][f]
+            if x[0] == 'phi':
+                return phi(x[1], self._field_of_value(x[2], f), self._field_of_value(x[3], f))
+        return ('fieldof', x, f)
+
     def tuple_elem(self, v, i):
         if v[0] == 'tuple' and i < len(v[1]):
             return v[1][i]
@@ -589,6 +641,14 @@ class VG:
                 self.bind_pat(p['sub'], v, fr)
             return
         if k == 'wild':
+            return
+        multi = self._multi_payload_pats(p)
+        if multi is not None:
+            if isinstance(v, tuple) and v and v[0] in ('ref', 'optref'):
+                v = self.read_place(v[1])      # (by-reference bindings into the payload of a multi-field variant are read-only here)
+            pv = payload(v)
+            for fn_, sp in multi:
+                self.bind_pat(sp, self._field_of_value(pv, fn_), fr)
             return
         inner = pat_is_some(p)
         if inner is not None:
@@ -942,6 +1002,12 @@ class VG:
         fs = {}
         for x in e['fields']:
             fs[x['name']] = self.value_noderef(x['e'], fr)
+        from .places import OPTION_LIKE_SOME_MULTI, OPTION_LIKE_SOME
+        if name in OPTION_LIKE_SOME_MULTI:
+            return some(('struct', name, {k_: self.deref(v_) if isinstance(v_, tuple) and v_ and v_[0] == 'ref' else v_ for k_, v_ in fs.items()}))
+        if name in OPTION_LIKE_SOME and len(fs) == 1:
+            v_ = list(fs.values())[0]
+            return some(self.deref(v_) if isinstance(v_, tuple) and v_ and v_[0] == 'ref' else v_)
         return ('struct', name, fs)
 
     def v_ctor(self, e, fr):
@@ -952,7 +1018,9 @@ class VG:
             if isinstance(a, tuple) and a and a[0] == 'ref':
                 a = self.deref(a)
             return some(a)
-        from .places import OPTION_LIKE_SOME
+        from .places import OPTION_LIKE_SOME, OPTION_LIKE_SOME_MULTI
+        if name in OPTION_LIKE_SOME_MULTI:
+            return some(('struct', name, {str(i): (self.deref(a) if isinstance(a, tuple) and a and a[0] == 'ref' else a) for i, a in enumerate(args)}))
         if name in OPTION_LIKE_SOME and len(args) == 1:
             a = args[0]
             if isinstance(a, tuple) and a and a[0] == 'ref':
@@ -1574,6 +1642,23 @@ class VG:
                     return ty
                 return None
         return None
+
+    def oos_names(self, path):
+        """Payload field names if the field at `path` is an Option of a plain struct / an option-like enum with several payload
+        fields (presented as one Option cell per payload field), else None."""
+        cache = self.__dict__.setdefault('_oos_cache', {})
+        if path not in cache:
+            names = None
+            try:
+                from .sir import oos_components
+                ty = self.child_type('', path)
+                oc = oos_components(self.F, ty) if isinstance(ty, dict) else None
+                if oc:
+                    names = [n for n, _ in oc]
+            except Exception:
+                names = None
+            cache[path] = names
+        return cache[path]
 
     def small_array_len(self, path):
         """k if the field at `path` is a fixed-size array `[T; k]` with k <= 4 (a handful of registers), else None."""
